@@ -106,6 +106,9 @@ func (c *ClusterNode) internalRoute(remoteFn string, args Destinationer, reply a
 				// }
 				return fmt.Errorf("failed to call %v: %w", remoteFn, finalErr)
 			}
+			if err := verifFault("routed:"+remoteFn+">"+destination, 0); err != nil {
+				return err
+			}
 			return nil
 		case <-timeout.C:
 			retryErr = fmt.Errorf(remoteFn+" timed out: %w", ErrTimeout)
